@@ -9,3 +9,5 @@ package dastard
 func verifAcc(string, interface{}, bool) {}
 
 func verifSync(string, string, interface{}) {}
+
+func verifClientUpdate(ClientUpdate) {}
